@@ -172,6 +172,7 @@ class Bench:
         # ---- zero twin: gain law and polarisation bookkeeping (no filter) -----------------------
         with ScriptedRNG("zero") as z:
             y0 = run(x)
+        y0_keep = (np.array(y0.signal), None if y0.noise is None else np.array(y0.noise))
         with ScriptedRNG("zero") as z2:
             y0b = run(x)
         self._contract(y0, n, what)
@@ -317,6 +318,13 @@ class Bench:
 
         if (seams.buf_digest(x.signal), seams.buf_digest(x.noise)) != dig0:
             raise Violation("C10/type", f"{what}: EDFA modified its input", "mutate")
+        # a result handed to the caller must not change when the amplifier is used again (shared work buffers)
+        np.random.seed(op["seed"] ^ 0x77)
+        run(self._mk(sig * 0.5, None))
+        if not np.array_equal(np.asarray(y0.signal), y0_keep[0]) or (y0_keep[1] is not None and not np.array_equal(
+                np.asarray(y0.noise), y0_keep[1])):
+            raise Violation("C10/type", f"{what}: an earlier EDFA result changed while later calls were made "
+                                        f"(output shares a buffer with library state)", "result-unstable")
         for b in (y0.signal, y0.noise):
             for xb in (x.signal, x.noise):
                 if seams.shares(b, xb):
